@@ -6,13 +6,28 @@ import ImmuModel.Decode.AppMetadata
 namespace ImmuModel.Decode
 open ImmuModel ImmuModel.Go
 
-theorem bufReader_read_noPanic (r : BufReader) (n : Nat) : (r.read n).1 ≠ .panic := by
-  unfold BufReader.read
+theorem bufReader_readFull_noPanic (r : BufReader) (n : Nat) : (r.readFull n).1 ≠ .panic := by
+  unfold BufReader.readFull
   repeat (first | split | simp)
+
+/-- a successful `io.ReadFull` of `n` bytes consumed exactly `n` bytes -/
+theorem bufReader_readFull_ok {r r' : BufReader} {n : Nat} {got : Bytes}
+    (h : r.readFull n = (.ok got, r')) : r'.rest.length + n = r.rest.length := by
+  unfold BufReader.readFull at h
+  split at h
+  · rename_i h0; cases h; omega
+  · split at h
+    · cases h
+    · split at h
+      · cases h
+      · rename_i hlt; cases h; simp only [List.length_drop]; omega
+
+@[simp] theorem grown_res (got : Bytes) : (grown got).res = .ok () := rfl
+@[simp] theorem grown_alloc (got : Bytes) : (grown got).alloc = got.length := rfl
 
 theorem readField_noPanic (r : BufReader) : NoPanic (readField r) := by
   unfold readField
-  have h1 := bufReader_read_noPanic r 4
+  have h1 := bufReader_readFull_noPanic r 4
   split
   · exact NoPanic.fail _
   · rename_i heq; rw [heq] at h1; exact absurd rfl h1
@@ -20,14 +35,59 @@ theorem readField_noPanic (r : BufReader) : NoPanic (readField r) := by
     simp only [bind_eq, pure_eq]
     rw [rdU32_ok (by simp [copyFixed_length])]
     simp only [M.pure_bind]
-    refine NoPanic.bind (by simp [NoPanic, makeN]) (fun _ _ => ?_)
-    have h2 := bufReader_read_noPanic r' (beVal (List.take 4 (copyFixed 4 got)))
-    split
-    · exact NoPanic.fail _
-    · rename_i heq2; rw [heq2] at h2; exact absurd rfl h2
-    · exact NoPanic.pure _
+    refine NoPanic.bind (by simp [NoPanic]) (fun _ _ => ?_)
+    exact NoPanic.ite (fun _ => NoPanic.fail _) (fun _ => NoPanic.pure _)
 
-theorem appMetadataLoop_noPanic (todo : Nat) (r : BufReader) (acc : List (Field × Field)) :
+/-- `x >>= f` allocates at most `N` when `x` alone does and, where `x` succeeds, `x` and the rest together do -/
+theorem alloc_bind_le {x : M α} {f : α → M β} {N : Nat} (hx : x.alloc ≤ N)
+    (hf : ∀ a, x.res = .ok a → x.alloc + (f a).alloc ≤ N) : (M.bind x f).alloc ≤ N := by
+  cases h : x.res with
+  | ok a => rw [M.bind_alloc_ok h]; exact hf a h
+  | err e => simp [M.bind, h]; exact hx
+  | panic => simp [M.bind, h]; exact hx
+
+/-- `readField` stores only bytes it has read: what it allocates plus what it leaves unread (plus the 4
+length bytes) is at most what was unread before — also when it fails. -/
+theorem readField_alloc (r : BufReader) :
+    (readField r).alloc ≤ r.rest.length ∧
+    ∀ f r', (readField r).res = .ok (f, r') → (readField r).alloc + r'.rest.length + 4 ≤ r.rest.length := by
+  unfold readField
+  split
+  · exact ⟨by simp, fun f r' h => by simp at h⟩
+  · exact ⟨by simp, fun f r' h => by simp at h⟩
+  · rename_i got r1 heq
+    have hc := bufReader_readFull_ok heq
+    simp only [bind_eq, pure_eq]
+    rw [rdU32_ok (by simp [copyFixed_length])]
+    simp only [M.pure_bind]
+    generalize beVal (List.take 4 (copyFixed 4 got)) = flen
+    have h1 : (r1.readAllLimited flen).1.length = min flen r1.rest.length := by
+      simp [BufReader.readAllLimited]
+    have h2 : (r1.readAllLimited flen).2.rest.length = r1.rest.length - flen := by
+      simp [BufReader.readAllLimited]
+    generalize r1.readAllLimited flen = rd at h1 h2 ⊢
+    have hg : (grown rd.1).res = .ok () := rfl
+    by_cases hlt : rd.1.length < flen
+    · rw [if_pos hlt]
+      constructor
+      · rw [M.bind_alloc_ok hg]
+        simp only [grown_alloc, M.fail_alloc]; omega
+      · intro f r' h
+        rw [M.bind_res_ok hg] at h
+        simp at h
+    · rw [if_neg hlt]
+      constructor
+      · rw [M.bind_alloc_ok hg]
+        simp only [grown_alloc, M.pure_alloc]; omega
+      · intro f r' h
+        rw [M.bind_res_ok hg] at h
+        simp only [M.pure_res, R.ok.injEq, Prod.mk.injEq] at h
+        obtain ⟨_, rfl⟩ := h
+        rw [M.bind_alloc_ok hg]
+        simp only [grown_alloc, M.pure_alloc]
+        omega
+
+theorem appMetadataLoop_noPanic (todo : Nat) (r : BufReader) (acc : List (Bytes × Bytes)) :
     NoPanic (appMetadataLoop todo r acc) := by
   induction todo generalizing r acc with
   | zero => exact NoPanic.pure _
@@ -38,6 +98,35 @@ theorem appMetadataLoop_noPanic (todo : Nat) (r : BufReader) (acc : List (Field 
     refine NoPanic.bind (readField_noPanic _) (fun vr _ => ?_)
     exact ih _ _
 
+/-- the loop allocates at most the bytes it has not read yet, whatever count the input declared -/
+theorem appMetadataLoop_alloc (todo : Nat) (r : BufReader) (acc : List (Bytes × Bytes)) :
+    (appMetadataLoop todo r acc).alloc ≤ r.rest.length := by
+  induction todo generalizing r acc with
+  | zero => simp [appMetadataLoop]
+  | succ todo ih =>
+    unfold appMetadataLoop
+    simp only [bind_eq]
+    have hk := readField_alloc r
+    refine alloc_bind_le hk.1 (fun kr hkr => ?_)
+    obtain ⟨k, r1⟩ := kr
+    have hk2 := hk.2 k r1 hkr
+    have hv := readField_alloc r1
+    have : (M.bind (readField r1) fun x => appMetadataLoop todo x.2 (acc ++ [(k, x.1)])).alloc ≤ r1.rest.length := by
+      refine alloc_bind_le hv.1 (fun vr hvr => ?_)
+      obtain ⟨v, r2⟩ := vr
+      have hv2 := hv.2 v r2 hvr
+      have := ih r2 (acc ++ [(k, v)])
+      simp only
+      omega
+    simp only at this ⊢
+    omega
+
+/-- the decoder reads only `fx.appCount` -/
+theorem appMetadataReadFrom_congr (fx fy : Fix) (h : fx.appCount = fy.appCount) (b : Bytes) :
+    appMetadataReadFrom fx b = appMetadataReadFrom fy b := by
+  unfold appMetadataReadFrom
+  rw [h]
+
 theorem appMetadataReadFrom_fixed_noPanic (fx : Fix) (hc : fx.appCount = true) (b : Bytes) : NoPanic (appMetadataReadFrom fx b) := by
   unfold appMetadataReadFrom
   simp only [bind_eq, pure_eq]
@@ -46,11 +135,31 @@ theorem appMetadataReadFrom_fixed_noPanic (fx : Fix) (hc : fx.appCount = true) (
   rw [hc] at hg
   simp only [Bool.true_and, decide_eq_true_eq] at hg
   refine NoPanic.bind ?_ (fun n _ => ?_)
-  · unfold Field.rdU32
-    rw [if_neg hg]
+  · rw [rdU32_ok (by omega)]
     exact NoPanic.pure _
   · exact NoPanic.bind (appMetadataLoop_noPanic _ _ _) (fun _ _ => NoPanic.pure _)
 
+/-- Memory: with or without the count guard, `ReadFrom` never holds more bytes than the input has. -/
+theorem appMetadataReadFrom_alloc (fx : Fix) (b : Bytes) : (appMetadataReadFrom fx b).alloc ≤ b.length := by
+  unfold appMetadataReadFrom
+  simp only [bind_eq, pure_eq]
+  have hc := readField_alloc { rest := b }
+  refine alloc_bind_le hc.1 (fun fr hfr => ?_)
+  obtain ⟨lenb, r1⟩ := fr
+  have hc2 := hc.2 lenb r1 hfr
+  simp only at hc2 ⊢
+  split
+  · simp only [M.fail_alloc]; omega
+  · have : (M.bind (rdU32 lenb) fun len =>
+        M.bind (appMetadataLoop len r1 []) fun kvs => M.pure (len, kvs)).alloc ≤ r1.rest.length := by
+      refine alloc_bind_le (by simp only [rdU32_alloc]; omega) (fun len _ => ?_)
+      rw [rdU32_alloc, Nat.zero_add]
+      refine alloc_bind_le (appMetadataLoop_alloc _ _ _) (fun kvs _ => ?_)
+      rw [M.pure_alloc, Nat.add_zero]
+      exact appMetadataLoop_alloc _ _ _
+    omega
+
+/-- the count guard is the only difference between the code before and after the repair -/
 theorem appMetadataReadFrom_rel (b : Bytes) :
     PanicOr (appMetadataReadFrom Fix.none b) (appMetadataReadFrom Fix.all b) := by
   unfold appMetadataReadFrom
@@ -58,7 +167,7 @@ theorem appMetadataReadFrom_rel (b : Bytes) :
   refine PanicOr.bind_right (fun fr _ => ?_)
   simp only [Fix.none_appCount, Fix.all_appCount, Bool.false_and, Bool.false_eq_true, if_false, Bool.true_and, decide_eq_true_eq]
   refine PanicOr.guard (fun hg => ?_) (fun _ => PanicOr.refl _)
-  unfold Field.rdU32
+  unfold rdU32
   rw [if_pos hg]
   simp
 
